@@ -648,6 +648,87 @@ def run_shared_descriptor(order):
     return viol
 
 
+def run_store():
+    """an object whose own interface has members called Get, Set and GetAll
+    (a key/value store), implemented under the conventional names and bound
+    to that interface with the decorator: the Properties interface still
+    answers for the properties"""
+    from txdbus import objects as O, interface as I
+    viol = []
+    cw = fakes.ClientWorld()
+    try:
+        store = I.DBusInterface(
+            'org.ex.Store', I.Method('Get', 's', 's'),
+            I.Method('Set', 'ss', ''), I.Method('GetAll', '', 'as'),
+            noRegister=True)
+        props = I.DBusInterface(
+            'org.ex.Named', I.Property('Title', 's', writeable=True),
+            I.Property('Count', 'u', writeable=True), noRegister=True)
+        calls = []
+
+        class Dev(O.DBusObject):
+            dbusInterfaces = [store, props]
+            title = O.DBusProperty('Title')
+            count = O.DBusProperty('Count')
+
+            @O.dbusMethod('org.ex.Store', 'Get')
+            def dbus_Get(self, key):
+                calls.append(('Get', key))
+                return 'stored:' + key
+
+            @O.dbusMethod('org.ex.Store', 'Set')
+            def dbus_Set(self, key, value):
+                calls.append(('Set', key, value))
+
+            @O.dbusMethod('org.ex.Store', 'GetAll')
+            def dbus_GetAll(self):
+                calls.append(('GetAll',))
+                return ['k']
+        o = Dev('/dev')
+        o.title, o.count = 't0', 1
+        cw.conn.exportObject(o)
+        cw.sent()
+        serial = 600
+        P = 'org.freedesktop.DBus.Properties'
+        steps = [
+            (P, 'Get', 'ss', ['org.ex.Named', 'Title'], ('ok', ['t0'])),
+            (P, 'Set', 'ssv', ['org.ex.Named', 'Title', Var('s', 't1')],
+             ('ok', [])),
+            (P, 'Get', 'ss', ['org.ex.Named', 'Title'], ('ok', ['t1'])),
+            (P, 'GetAll', 's', ['org.ex.Named'],
+             ('ok', [{'Title': 't1', 'Count': 1}])),
+            ('org.ex.Store', 'Get', 's', ['k'], ('ok', ['stored:k'])),
+            ('org.ex.Store', 'Set', 'ss', ['k', 'v'], ('ok', [])),
+            ('org.ex.Store', 'GetAll', '', [], ('ok', [['k']])),
+            (P, 'Get', 'ss', ['org.ex.Named', 'Count'], ('ok', [1])),
+        ]
+        for iface, member, sig, body, want in steps:
+            serial += 1
+            cw.conn.dataReceived(R.encode_message(
+                R.METHOD_CALL, serial,
+                {'path': '/dev', 'member': member, 'sender': CALLER,
+                 'interface': iface, 'destination': ':1.7'}, sig, body))
+            msgs = cw.sent()
+            mine = [m for m in msgs
+                    if m['fields'].get('reply_serial') == serial]
+            got = ('ok', mine[0]['body_plain']) if len(mine) == 1 and \
+                mine[0]['type'] == 2 else ('other', [_b(m) for m in mine])
+            if got != want:
+                viol.append(('store/%s.%s' % (iface.split('.')[-1], member),
+                             'an object with its own Get/Set/GetAll members '
+                             '(interface org.ex.Store) and properties: '
+                             '%s.%s%r answered %r, expected %r'
+                             % (iface, member, tuple(body), got, want)))
+        if [c[0] for c in calls] != ['Get', 'Set', 'GetAll']:
+            viol.append(('store/invocations',
+                         'the store\'s own methods ran %r' % (calls,)))
+    except Exception as e:
+        viol.append(('store/raises-%s' % type(e).__name__, '%r' % (e,)))
+    finally:
+        cw.close()
+    return viol
+
+
 def _task_early(_):
     res = core.Result()
     for which in ('base', 'derived'):
@@ -667,6 +748,11 @@ def _task_early(_):
         for t, w in run_failed_sibling(order):
             res.violation('%s/%s' % (PROP, t), w,
                           {'part': 'sibling', 'order': list(order)}, size=1)
+    res.count('states')
+    res.count('transitions', 8)
+    res.count('evaluations')
+    for t, w in run_store():
+        res.violation('%s/%s' % (PROP, t), w, {'part': 'store'}, size=1)
     for order in (('a',), ('b',), ('a', 'b'), ('b', 'a')):
         res.count('states')
         res.count('transitions', len(order))
@@ -679,6 +765,8 @@ def _task_early(_):
 
 
 def replay(data):
+    if data.get('part') == 'store':
+        return [('%s/%s' % (PROP, t), w) for t, w in run_store()]
     if data.get('part') == 'shared':
         return [('%s/%s' % (PROP, t), w)
                 for t, w in run_shared_descriptor(tuple(data['order']))]
